@@ -75,7 +75,7 @@ theorem fuel_irrelevant (m : MapperSpec β) (h : Heap) (root f : Nat) (hw : WFHe
 /-- **Sharing is kept**: a transformation produces exactly one result per distinct
     visited node (so every use of a shared node sees the same result object), never
     creates more nodes than it was given, and leaves its input untouched. -/
-theorem sharing_kept (sel : String → String → Bool) (relabel : NodeData → String × List String)
+theorem sharing_kept (sel : String → String → Bool) (relabel : NodeData → NodeData)
     (h : Heap) (root : Nat) (hw : WFHeap h) :
     let s := runTransform sel relabel h root
     s.map.map (·.1) = (visitLog sel h root).reverse
@@ -143,7 +143,8 @@ example : (runTransform (fun _ _ => true) relabelId exLadder 6).image 6 = some 6
 /-- a transformation that does change something: tag every IndexLambda; 5 nodes are re-created
     plus the dictionary, the placeholder is returned as is -/
 example : ((runTransform (fun _ _ => true)
-    (fun nd => (nd.kind, if nd.kind == "IndexLambda" then nd.tags ++ ["X"] else nd.tags)) exLadder 6).heap.size
+    (relabelWith fun nd => (nd.kind, if nd.kind == "IndexLambda" then nd.tags ++ ["X"] else nd.tags))
+      exLadder 6).heap.size
       = 13) := by decide
 
 end Pt
